@@ -164,7 +164,7 @@ def make_detector_cfg(rng, slot):
     """Returns dict(kind, f, times=((bmin, btyp, bmax), (rmin, rtyp, rmax) | None), win=(b_lo, b_hi, r_lo, r_hi) in cycles)."""
     if slot == "A":
         if rng.random() < 0.5:
-            f = jitter_freq(rng, loguniform(rng, 8e6, 125e6)) if rng.random() < 0.85 else 125e6
+            f = jitter_freq(rng, loguniform(rng, 8e6, 125e6)) if rng.random() < 0.7 else 125e6
             kind, times = "polling_real", SPEC["polling"]
         else:
             f = 1e6
@@ -176,7 +176,8 @@ def make_detector_cfg(rng, slot):
             times = ((b_lo / f, (b_lo + b_hi) / 2 / f, b_hi / f), (r_lo / f, (r_lo + r_hi) / 2 / f, r_hi / f))
     elif slot == "B":
         if rng.random() < 0.5:
-            f = jitter_freq(rng, loguniform(rng, 250, 20000))       # above 6.25 kHz / 25 kHz x1000 errors of the burst limits show
+            # above 6.25 kHz a x1000 error of the burst maximum changes the cycle thresholds: 40 % of the cases are up there
+            f = jitter_freq(rng, loguniform(rng, 6500, 12000) if rng.random() < 0.4 else loguniform(rng, 250, 20000))
             kind, times = "ping_real", SPEC["ping"]
         else:
             f = 1e6
@@ -734,7 +735,7 @@ def run_case(rng, tier, res):
     use_xcvr = rng.random() < 0.3
     # transceiver scale: "fast" = polling scale (8..40 MHz, or the constructor default 125 MHz); "slow" = 300..4000 Hz, where
     # the ping and warm-reset windows can be reached, so that ping_detected / reset_detected are tested positively
-    xcvr_mode = rng.choice(["fast", "fast_default", "slow", "slow"]) if use_xcvr else None
+    xcvr_mode = rng.choice(["fast", "fast_default", "fast_default", "slow", "slow"]) if use_xcvr else None
     xcvr_f = None
     if use_xcvr:
         xcvr_f = {"fast": jitter_freq(rng, loguniform(rng, 8e6, 40e6)), "fast_default": 125e6,
